@@ -138,6 +138,15 @@ def customTypeChecks (types : Nat → Option CustomInfo) (fd : FieldDef) : Bool 
        else !info.rawNative && info.rawBits == fd.totalBits) &&
       (info.newReturnsResult == c.isOption || (!fd.getter))
 
+def DefaultSyn.val : DefaultSyn → Nat
+  | .lit n => n
+  | .const n => n
+
+/-- `const DEFAULT_RAW_VALUE: uN = …` must be representable (rustc: overflowing literal / const panic) -/
+def defaultTooLarge (B : Base) : Option Nat → Bool
+  | some v => decide (v ≥ 2 ^ B.exposed)
+  | none => false
+
 /-- `bitfield()`; `resolve` numbers the custom types (see `parseField`), `types` describes them -/
 def expand (resolve : List String → Nat) (types : Nat → Option CustomInfo) (d : DeclSyn) : Except Reject Program := do
   let B ← (match baseOf d.baseIdent with
@@ -156,9 +165,8 @@ def expand (resolve : List String → Nat) (types : Nat → Option CustomInfo) (
   if d.debug ∧ fds.any (fun fd => !fd.getter || fd.array.isSome) then
     .error (.error "debug: getter missing or indexed (rustc E0599/E0061)")
   else
-  let defaultVal : Option Nat := d.default.map (fun x => match x with | .lit n => n | .const n => n)
-  -- `const DEFAULT_RAW_VALUE: uN = …` must be representable (rustc: overflowing literal / const panic)
-  if (match defaultVal with | some v => decide (v ≥ 2 ^ B.exposed) | none => false) then
+  let defaultVal : Option Nat := d.default.map DefaultSyn.val
+  if defaultTooLarge B defaultVal then
     .error (.error "default value does not fit the base type (rustc)")
   else
   match makeBuilder B d.default.isSome fds with
